@@ -198,8 +198,7 @@ func decode(rw *recorder) written {
 	var o written
 	loc := rw.hdr.Get("Location")
 	action, params, posted := zz.FormPost(string(rw.body))
-	zz.Observe("location", loc)
-	zz.Observe("posted", posted)
+	zz.Observe("posted", posted) // (the Location itself carries freshly minted codes/tokens: not comparable across runs)
 	if posted {
 		o.posted, o.form, o.target = true, params, action
 		return o
@@ -246,6 +245,7 @@ func writeError(w *world.World, ar fosite.AuthorizeRequester, err error, q reque
 		return
 	}
 	zz.Cover("error-redirected", true)
+	zz.Observe("error-target", o.target)
 	checkPlacement(o)
 	for _, k := range append([]string{"code"}, tokenParams...) {
 		zz.Assert(!o.query.Has(k) && !o.frag.Has(k) && !(o.posted && o.form.Has(k)), "an error response carries no code or token")
@@ -286,18 +286,18 @@ func drive(w *world.World, q request, regs map[string]registration, grantOpenID 
 	zz.Observe("has_code", hasCode)
 	if hasAT {
 		zz.Cover("access-token-issued", true)
-		zz.Assert(has(r.grants, "implicit"), "access_token from the authorization endpoint => client has the implicit grant")
+		zz.Assert(has(effGrants(r), "implicit"), "access_token from the authorization endpoint => client has the implicit grant")
 	}
 	if hasID {
 		zz.Cover("id-token-issued", true)
 		if !has(rt, "code") {
-			zz.Assert(has(r.grants, "implicit"), "id_token in the implicit flow => client has the implicit grant")
+			zz.Assert(has(effGrants(r), "implicit"), "id_token in the implicit flow => client has the implicit grant")
 		}
 		zz.Assert(len(q.nonce) >= minEntropy, "id_token from the authorization endpoint => nonce of minimum length")
 	}
 	if hasCode && len(rt) > 1 {
 		zz.Cover("hybrid-code-issued", true)
-		zz.Assert(has(r.grants, "authorization_code"), "code in the hybrid flow => client has the authorization_code grant")
+		zz.Assert(has(effGrants(r), "authorization_code"), "code in the hybrid flow => client has the authorization_code grant")
 	}
 	mode := ar.GetResponseMode()
 	zz.Observe("mode", string(mode))
@@ -325,6 +325,14 @@ func drive(w *world.World, q request, regs map[string]registration, grantOpenID 
 	zz.Cover("delivered-form-post", o.posted)
 }
 
+// effGrants: an empty grant_types registration means "authorization_code only" (client.go, OIDC registration default).
+func effGrants(r registration) []string {
+	if len(r.grants) == 0 {
+		return []string{"authorization_code"}
+	}
+	return r.grants
+}
+
 func regsOf(r registration) map[string]registration {
 	return map[string]registration{"c1": r, "c2": defaultRegistration()}
 }
@@ -332,7 +340,7 @@ func regsOf(r registration) map[string]registration {
 var (
 	wordList   = []string{"", "code", "token", "id_token", "x"}
 	modeList   = []string{"", "query", "fragment", "form_post", "other"}
-	grantLists = [][]string{{"authorization_code", "implicit"}, {"authorization_code"}, {"implicit"}, {}}
+	grantLists = [][]string{{"authorization_code", "implicit"}, {"authorization_code"}, {"implicit"}, {"refresh_token"}, {}}
 	rtRegs     = [][]string{{"code"}, {"token"}, {"code token"}, {"token code", "id_token"}, {"code id_token token"}, allResponseTypes}
 	modeRegs   = [][]fosite.ResponseModeType{nil, {}, {fosite.ResponseModeQuery}, {fosite.ResponseModeFragment, fosite.ResponseModeFormPost}, {fosite.ResponseModeQuery, fosite.ResponseModeFragment, fosite.ResponseModeFormPost}}
 )
